@@ -214,6 +214,8 @@ pub struct GProgram {
     pub types: Vec<GType>,
     /// alias name -> type idx
     pub aliases: Vec<(String, usize)>,
+    /// alias i is declared as an alias of alias `alias_via[i]` (a chain) instead of the type itself
+    pub alias_via: Vec<Option<usize>>,
     pub txs: Vec<GTx>,
     /// order of top-level definitions: 0 env,1 parties,2 policies,3 assets,4 types,5 aliases,6 txs
     pub top_order: Vec<u8>,
@@ -837,11 +839,14 @@ impl<'p> Printer<'p> {
                     }
                 }
                 5 => {
-                    for (n, ti) in &prog.aliases {
+                    for (ai, (n, ti)) in prog.aliases.iter().enumerate() {
                         self.t("type");
                         self.t(n);
                         self.t("=");
-                        let tn = prog.types[*ti].name.clone();
+                        let tn = match prog.alias_via.get(ai).copied().flatten() {
+                            Some(via) => prog.aliases[via].0.clone(),
+                            None => prog.types[*ti].name.clone(),
+                        };
                         self.t(&tn);
                         self.t(";");
                     }
